@@ -17,14 +17,14 @@ import (
 
 // C15Case: a spelling of a (chain, entropy) pair compared with the canonical spelling.
 type C15Case struct {
-	Transform  string     `json:"transform"` // as spelled
-	Entropy    string     `json:"entropy"`   // as spelled
-	Headerless bool       `json:"headerless,omitempty"`
-	ReaderTransform string `json:"reader_transform,omitempty"` // headerless reader spelling (default: same as writer)
-	ReaderEntropy   string `json:"reader_entropy,omitempty"`
-	Data       gen.Recipe `json:"data"`
-	BlockSize  uint       `json:"block_size"`
-	LawsOnly   bool       `json:"laws_only,omitempty"`
+	Transform       string     `json:"transform"` // as spelled
+	Entropy         string     `json:"entropy"`   // as spelled
+	Headerless      bool       `json:"headerless,omitempty"`
+	ReaderTransform string     `json:"reader_transform,omitempty"` // headerless reader spelling (default: same as writer)
+	ReaderEntropy   string     `json:"reader_entropy,omitempty"`
+	Data            gen.Recipe `json:"data"`
+	BlockSize       uint       `json:"block_size"`
+	LawsOnly        bool       `json:"laws_only,omitempty"`
 }
 
 func respell(s string, mode int, mask uint64) string {
